@@ -125,7 +125,9 @@ class PacketArray:
         self.memory = memory
 
     def __getitem__(self, pos):
-        return self.memory[self.ebpf.r[self.no] + pos]
+        ret = self.memory[self.ebpf.r[self.no] + pos]
+        ret.atomic = False  # the kernel allows no atomic operations here
+        return ret
 
     def __setitem__(self, pos, value):
         self.memory[self.ebpf.r[self.no] + pos] = value
@@ -181,6 +183,7 @@ class PacketVar(MemoryDesc):
        conventions from the :mod:`struct` module.
     """
     base_register = 9
+    atomic = False  # the kernel allows no atomic operations on packets
 
     def __init__(self, address, fmt):
         self.address = address
